@@ -116,8 +116,89 @@ static void op_c09_sweep(Exec& x, const Json& op, int)
 	x.out.sample = smp;
 }
 
+// (c) silent corruption of a write into a content ".tmp": the re-read + checksum verification must stop the save
+static void op_c09_savefault(Exec& x, const Json& op, int)
+{
+	CmdSpec spec = CmdSpec::from_json(op.at("spec"));
+	Snap pre = x.sb.snapshot_all();
+	int64_t pre_now = x.sb.now_s;
+	unsigned pre_idx = x.sb.cmd_index;
+	auto reset = [&]() { x.sb.restore_all(pre); x.sb.now_s = pre_now; x.sb.cmd_index = pre_idx; };
+	CmdResult ref = x.cmd(spec);
+	// how many writes each .tmp receives
+	std::map<std::string, int> writes;
+	for (auto& e : ref.trace) if (e.kind == EV_WRITE && e.res > 0 && ends_with(ref.path(e.path), ".tmp")) writes[ref.path(e.path)]++;
+	if (writes.empty()) { reset(); x.probe("c09.command_did_not_save"); return; }
+	Rng r((uint64_t)op.num("seed"));
+	struct Case { std::string path; int nth; };
+	std::vector<Case> cases;
+	if (x.focused()) cases.push_back({ x.focus().str("path"), (int)x.focus().num("nth") });
+	else
+		for (auto& kv : writes) {
+			int per = (int)op.num("per_copy", 2);
+			for (int k = 0; k < per; ++k) cases.push_back({ kv.first, (int)r.below((uint64_t)kv.second) });
+		}
+	bool saved = x.check_parity_every_cmd;
+	for (auto& cs : cases) {
+		reset();
+		CmdSpec s = spec;
+		Fault f;
+		f.f.kind = FK_CORRUPT;
+		f.f.opmask = OPC_WRITE;
+		snprintf(f.f.path, sizeof(f.f.path), "%s", cs.path.c_str());
+		f.f.nth = cs.nth;
+		f.f.count = 1;
+		s.faults.push_back(f);
+		Json focus = Json::obj().set("path", cs.path).set("nth", cs.nth);
+		x.check_parity_every_cmd = false;
+		CmdResult r1 = x.cmd(s);
+		x.check_parity_every_cmd = saved;
+		++x.out.cases;
+		if (r1.harness_error) { x.harness("c09 savefault"); return; }
+		if (!r1.info.faults[0].fired) { x.probe("c09.savefault_not_reached"); continue; }
+		++x.out.nontrivial_cases;
+		x.out.case_hashes.insert(mix64(hash_str(focus.dump()), x.plan->seed));
+		x.probe("c09.corrupt_write_cases");
+		std::string when = spec.cmd + strf(" with write #%d into %s silently corrupted (exit %d)", cs.nth, cs.path.c_str(), r1.exit_code);
+		// every copy must still be a complete file; a successful command leaves identical copies
+		Bytes first;
+		bool have_first = false;
+		for (auto& l : load_contents(x.sb)) {
+			if (!l.present) { if (pre.count(l.rel)) x.violation("C09", "content-copy-vanished", when + ": " + l.rel, focus); continue; }
+			if (!l.err.empty()) x.violation("C09", "damaged-content-installed", when + ": " + l.rel + " is now a damaged file (" + l.err + ")", focus);
+			if (r1.exit_code == 0) { if (!have_first) { first = l.raw; have_first = true; } else if (l.raw != first) x.violation("C09", "content-copies-differ", when + ": " + l.rel + " differs from the first copy after a successful command", focus); }
+		}
+		if (r1.exit_code == 0) x.probe("c09.corrupt_write_survived");
+	}
+	reset();
+	x.cmd(spec);
+	x.out.nontrivial = x.out.nontrivial_cases > 0;
+}
+
 static RunPlan gen_contentdamage(uint64_t seed, int tier)
 {
+	if ((seed % 4) == 0) {
+		// save-path scenario
+		Rng rng(seed);
+		RunPlan p;
+		p.family = "content-damage";
+		p.seed = seed;
+		p.cfg = gen_config(rng, 3, 4, false);
+		p.cfg.autosave_at = 0;
+		for (auto& o : gen_populate(rng, p.cfg, 1, 3)) p.ops.push_back(o);
+		CmdSpec b;
+		b.cmd = "sync";
+		p.ops.push_back(op_cmd(gen_sched(rng, b), "ok"));
+		for (auto& o : gen_mutations(rng, p.cfg, (int)rng.range(1, 3))) p.ops.push_back(o);
+		CmdSpec s;
+		switch (rng.below(4)) {
+		case 0: s.cmd = "scrub"; s.opts = { "-p", "full" }; break;
+		case 1: s.cmd = "touch"; break;
+		default: s.cmd = "sync"; s.opts = { "-E", "-Z" }; break;
+		}
+		p.ops.push_back(Json::obj().set("k", "c09_savefault").set("spec", gen_sched(rng, s).to_json()).set("seed", rng.next() >> 1).set("per_copy", tier ? 6 : 2));
+		return p;
+	}
 	Rng rng(seed);
 	RunPlan p;
 	p.family = "content-damage";
@@ -141,6 +222,7 @@ static struct RegContentDamage {
 	RegContentDamage()
 	{
 		Exec::register_op("c09_sweep", op_c09_sweep);
+		Exec::register_op("c09_savefault", op_c09_savefault);
 		Family f;
 		f.name = "content-damage";
 		f.prop = "C09";
